@@ -132,6 +132,33 @@ Theorem C13_endpoint_stable_single_dial :
 Proof. exact (conj C13_endpoint_stable_proof C13_single_dial_proof). Qed.
 Print Assumptions C13_endpoint_stable_single_dial.
 
+(* Remove(key, handle) from any flow at any time (C13_close_once, C13_never_resurrect,
+   C13_endpoint_stable_single_dial and C13_endpoint_tuples above quantify over histories that contain such
+   calls): a Remove whose handle is not the pool's entry of its key — a stale handle: the endpoint was retired
+   and perhaps replaced meanwhile — changes nothing at all; any Remove leaves the entries of other keys alone.
+   Together with C13_close_once (clause 3: an endpoint that is not the pool's entry of its key is closed) this
+   is the reachability invariant: every dialled endpoint is either pooled and alive or closed. *)
+Theorem C13_remove_stale_handle :
+  forall ops h e u,
+    nth_error (p_handles (prun ops)) h = Some e -> nth_error (p_eps (prun ops)) e = Some u ->
+    (p_pool (prun ops) (u_key u) <> Some e -> fst (pstep (prun ops) (PRemove h)) = prun ops)
+    /\ (forall k, k <> u_key u -> p_pool (fst (pstep (prun ops) (PRemove h))) k = p_pool (prun ops) k).
+Proof. exact C13_remove_stale_handle_proof. Qed.
+Print Assumptions C13_remove_stale_handle.
+
+(* The identity check in Remove is necessary: without it (ep_remove false) a late Remove(key, E1) after E1 was
+   retired and E2 dialled evicts E2 unclosed — E2 is neither pooled nor closed, the next call dials a third
+   endpoint while E2 is alive, and a pool Reset never closes E2. *)
+Theorem C13_remove_without_identity_refuted :
+  let s := ep_remove false (prun remove_noid_ops) 0 in
+  (exists u, nth_error (p_eps s) 1 = Some u /\ u_failed u = false /\ u_closed u = false /\ u_dead u = false
+             /\ p_pool s (u_key u) = None)
+  /\ p_dials (fst (pstep s (PGoc 0 0 0 0))) = 3
+  /\ (let s2 := fst (pstep (fst (pstep s (PGoc 0 0 0 0))) PReset) in
+      exists u, nth_error (p_eps s2) 1 = Some u /\ u_conn_closes u = 0).
+Proof. exact C13_remove_without_identity_refuted_proof. Qed.
+Print Assumptions C13_remove_without_identity_refuted.
+
 (* Kernel flow entries follow their endpoints: after any history, generation g's tracker holds tuple t with
    exactly as many references as there are endpoints owned by g (creator, or the last generation that
    adopted them on reuse) that registered t and have not released their conn state; an endpoint that has
